@@ -31,8 +31,10 @@ def spell(rng, v: int) -> str:
         return "0x" + h
     if r < 0.5:
         return h
-    if r < 0.65:
+    if r < 0.6:
         return "0x" + h.upper()
+    if r < 0.65:
+        return "0X" + h               # int(text, 16) reads this prefix too
     if r < 0.8:
         return "0x" + "0" * rng.randint(1, 4) + h
     return h.upper()
@@ -74,12 +76,12 @@ def gen(rng):
 DIRECT = re.compile(r"^[0-9a-f]+$")
 
 
-def judge(ctx, ws, insts, lo, hi, lo_s, hi_s, text=None, crlf=False, binary_b64=None):
+def judge(ctx, ws, insts, lo, hi, lo_s, hi_s, text=None, crlf=False, binary_b64=None, macro_lib=None):
     with ctx.ambient_log():
-        return _judge(ctx, ws, insts, lo, hi, lo_s, hi_s, text, crlf, binary_b64)
+        return _judge(ctx, ws, insts, lo, hi, lo_s, hi_s, text, crlf, binary_b64, macro_lib)
 
 
-def _judge(ctx, ws, insts, lo, hi, lo_s, hi_s, text=None, crlf=False, binary_b64=None):
+def _judge(ctx, ws, insts, lo, hi, lo_s, hi_s, text=None, crlf=False, binary_b64=None, macro_lib=None):
     text = text or L.render(insts, ctx.rng)
     binary = binary_b64 is not None
     if binary:
@@ -90,10 +92,17 @@ def _judge(ctx, ws, insts, lo, hi, lo_s, hi_s, text=None, crlf=False, binary_b64
         if crlf:
             ctx.event("crlf_listings_judged")
     with_rule = real.dump_rule({"config": {"valid_addr_range": {"min": lo_s, "max": hi_s}}, "pattern": ["zzzzzz"]})
-    r_with = real.match(ws.write("w.yaml", with_rule), lp, ret="stream", binary=binary)
+    macros = [ws.write("lib_with_config.yaml", macro_lib)] if macro_lib else None
+    if macros is None and ctx.rng.random() < 0.15:
+        # a macro library that is itself a complete rule file (config block, pattern, macros): only its macros are borrowed
+        lib = {"config": ctx.rng.choice([{"mnemonics-full-match": False}, {"style": "att"}, {"operands-full-match": False, "sections": [".text"]}]),
+               "macros": [{"name": "@unused_lib_macro", "pattern": "hlt"}], "pattern": ["ret"]}
+        macros = [ws.write("lib_with_config.yaml", real.dump_rule(lib))]
+        ctx.event("runs_with_a_macro_library_that_has_a_config_block")
+    r_with = real.match(ws.write("w.yaml", with_rule), lp, ret="stream", binary=binary, macros=macros)
     r_wo = real.match(ws.write("wo.yaml", real.dump_rule({"pattern": ["zzzzzz"]})), lp, ret="stream", binary=binary)
     ctx.ran(2)
-    case = {"listing": text, "min": lo_s, "max": hi_s, "crlf": crlf, "binary_b64": binary_b64}
+    case = {"listing": text, "min": lo_s, "max": hi_s, "crlf": crlf, "binary_b64": binary_b64, "macro_lib": open(macros[0]).read() if macros else None}
     if r_wo[0] != "ok":
         ctx.inconc("parser raised without the option (left to C08)")
         return
@@ -163,7 +172,7 @@ def _judge(ctx, ws, insts, lo, hi, lo_s, hi_s, text=None, crlf=False, binary_b64
     for name, want in (("call", exp_call), ("jmp", exp_jmp)):
         rt = real.dump_rule({"config": {"valid_addr_range": {"min": lo_s, "max": hi_s}, "mnemonics-full-match": True, "operands-full-match": True},
                              "pattern": [{name: ["valid_addr"]}]})
-        r = real.match(ws.write("r.yaml", rt), lp, ret="list", search="all", only_addr=True, binary=binary)
+        r = real.match(ws.write("r.yaml", rt), lp, ret="list", search="all", only_addr=True, binary=binary, macros=macros)
         ctx.ran()
         if r[0] != "ok" or list(r[1]) != want:
             ctx.disagreement(case, f"rule {name}: [valid_addr] reports {str(r[1])[:200]}, expected the in-range direct {name}s {want}")
@@ -219,4 +228,4 @@ def replay(ctx, case):
     def val(s):
         return int(s[2:] if s.lower().startswith("0x") else s, 16)
     judge(ctx, real.Workspace(), None, val(case["min"]), val(case["max"]), case["min"], case["max"], text=case["listing"],
-          crlf=bool(case.get("crlf")), binary_b64=case.get("binary_b64"))
+          crlf=bool(case.get("crlf")), binary_b64=case.get("binary_b64"), macro_lib=case.get("macro_lib"))
